@@ -62,6 +62,9 @@ pub fn starts_with_str(s: &String, p: &str) -> bool { unimplemented!() }
 pub fn starts_with_char(s: &String, p: char) -> bool { unimplemented!() }
 #[verifier::external_body]
 pub fn ends_with_char(s: &String, p: char) -> bool { unimplemented!() }
+/// `s.starts_with([c1, c2, ..])`: any of the characters
+#[verifier::external_body]
+pub fn starts_with_any(s: &String) -> bool { unimplemented!() }
 #[verifier::external_body]
 pub fn string_clone(s: &String) -> (r: String) ensures r@ == s@ { unimplemented!() }
 #[verifier::external_body]
@@ -116,6 +119,8 @@ impl PackageBuilder {
        subs=[(re.compile(r'\b(\w+)\.starts_with\(("[^"]*")\)'), r'starts_with_str(&\1, \2)', None, 'R12-str::starts_with(literal)'),
              (re.compile(r"\b(\w+)\.starts_with\(('[^']*')\)"), r'starts_with_char(&\1, \2)', None, 'R12-str::starts_with(char)'),
              (re.compile(r"\b(\w+)\.ends_with\(('[^']*')\)"), r'ends_with_char(&\1, \2)', None, 'R12-str::ends_with(char)'),
+             (re.compile(r"\b(\w+)\.starts_with\(\[[^\]]*\]\)"), r'starts_with_any(&\1)', None, 'R12-str::starts_with([chars])'),
+             (re.compile(r'\.expect\(\s*"[^"]*"\s*,?\s*\)'), '.unwrap()', None, 'R4-expect-message'),
              (re.compile(r'\bdest\.clone\(\)'), 'string_clone(&dest)', None, 'R12-String::clone'),
              (re.compile(r'\bdir\.clone\(\)'), 'string_clone(&dir)', None, 'R12-String::clone'),
              (re.compile(r'\bdest\.to_string\(\)'), 'string_clone(&dest)', None, 'R12-String::to_string'),
